@@ -344,4 +344,10 @@ MUTANTS = [
      "old": "            self.on_group_leave()\n            self.stop(errback_result=result)\n            return\n",
      "new": "            self.on_group_leave()\n            return\n", "expect": ["C17.R1", "C17.R2"]},
 ]
-TWINS = []
+TWINS = [
+    {"id": "errback-added-separately", "file": "_group.py", "old": "        d.addBoth(cleanup_rejoin_d).addErrback(rejoin_d_errback)",
+     "new": "        d.addBoth(cleanup_rejoin_d)\n        d.addErrback(rejoin_d_errback)"},
+    {"id": "heartbeat-failure-order", "file": "_group.py",
+     "old": "        self._heartbeat_request_d = None\n        self._heartbeat_looper.stop()\n        return self.rejoin_after_error(failure, label=\"heartbeat\")",
+     "new": "        self._heartbeat_looper.stop()\n        self._heartbeat_request_d = None\n        return self.rejoin_after_error(failure, label=\"heartbeat\")"},
+]
